@@ -48,7 +48,9 @@ def eval_case(pid, pl, res, case, obs, kf_class=None):
             if t["baseHasVft"]:
                 if "vftable" in fields:
                     problems.append(f"{t['name']} has its own vftable pointer although its first base carries one")
-                if not acc.get("has") or acc.get("via") != t["firstBase"]:
+                if acc.get("has") and acc.get("via") == "?":
+                    res.notes.append(f"case {cid}: {t['name']}::vftable() has an unrecognised body (decided by execution only)")
+                elif not acc.get("has") or acc.get("via") != t["firstBase"]:
                     problems.append(f"{t['name']}::vftable() does not return the pointer stored in base `{t['firstBase']}` (via={acc.get('via')})")
                 if t["ownBlock"] and acc.get("has") and acc.get("ty") != {"k": "cptr", "t": {"k": "raw", "p": mp + [t["name"] + "Vftable"]}}:
                     problems.append(f"{t['name']}::vftable() is not typed as the derived table ({acc.get('ty')})")
@@ -59,7 +61,9 @@ def eval_case(pid, pl, res, case, obs, kf_class=None):
                     l = pl.layout_of(tgt, cid, path, it)
                     if l and l["offs"].get("vftable") != 0:
                         problems.append(f"{t['name']}: vftable pointer at offset {l['offs'].get('vftable')} under {tgt}")
-                if not acc.get("has") or acc.get("via") != "":
+                if acc.get("has") and acc.get("via") == "?":
+                    res.notes.append(f"case {cid}: {t['name']}::vftable() has an unrecognised body (decided by execution only)")
+                elif not acc.get("has") or acc.get("via") != "":
                     problems.append(f"{t['name']}::vftable() does not read the type's own pointer")
             else:
                 if acc.get("has") or "vftable" in fields:
@@ -91,7 +95,15 @@ def eval_case(pid, pl, res, case, obs, kf_class=None):
                     pass
             want_refs = sorted((tuple(a["ty"]), tuple(a["path"])) for a in t["asrefs"])
             for key in ("asrefs", "asmuts"):
-                got_refs = sorted((tuple(a["ty"].get("p", [])), tuple(a["path"])) for a in it.get(key, []) if a["path"])
+                entries = [a for a in it.get(key, []) if a["path"] or not a.get("shape_ok", True)]
+                if any(not a.get("shape_ok", True) for a in entries):
+                    # which conversions exist is read from the impl headers; where they point is decided by execution
+                    res.notes.append(f"case {cid}: {t['name']} {key} bodies of unrecognised shape (paths decided by execution only)")
+                    got_tys = sorted(tuple(a["ty"].get("p", [])) for a in entries)
+                    if got_tys != sorted(w[0] for w in want_refs):
+                        problems.append(f"{t['name']} {key}: conversions to {got_tys}, expected {sorted(w[0] for w in want_refs)}")
+                    continue
+                got_refs = sorted((tuple(a["ty"].get("p", [])), tuple(a["path"])) for a in entries)
                 if got_refs != want_refs:
                     problems.append(f"{t['name']} {key}: {got_refs}, expected {want_refs}")
                 for a in it.get(key, []):
